@@ -293,6 +293,25 @@ func c02Sessions(tier string) []c02Session {
 		out = append(out, c02Session{Name: fmt.Sprintf("column name and tag of %d bytes", n), ColNames: []string{strings.Repeat("n", n)},
 			Segs: [][]byte{start, pgproto.Query(fmt.Sprintf("1:r,c=@%d", n)), pgproto.Parse("", fmt.Sprintf("1:r,c=@%d", n)), pgproto.Bind("", "", nil, nil, nil), pgproto.Describe('P', ""), pgproto.Execute("", 0), pgproto.Sync()}})
 	}
+	// (j) rows larger than everything the connection has written before (the frame has to grow while a value is
+	// being added), in both protocols, the same row twice; a statement / portal described again and again
+	for _, size := range []int{4000, 4090, 4096, 4100, 6400, 9000, 70000} {
+		for _, nc := range []int{1, 3} {
+			q := fmt.Sprintf("%d:r,R%d,r,R%d,c=T", nc, size, size)
+			out = append(out, c02Session{Name: fmt.Sprintf("row with a %d-byte value, %d columns", size, nc), Opts: []wire.OptionFn{wire.MessageBufferSize(1 << 20)},
+				Segs: [][]byte{start, pgproto.Query(q), pgproto.Parse("", q), pgproto.Bind("", "", nil, nil, []int16{1}), pgproto.Execute("", 0), pgproto.Sync(), pgproto.Query(q)}})
+		}
+	}
+	for _, nc := range []int{0, 1, 3} {
+		q := fmt.Sprintf("%d:r,c=T $1 $2", nc)
+		d := [][]byte{pgproto.Describe('S', "s"), pgproto.Sync()}
+		segs := [][]byte{start, pgproto.Parse("s", q), pgproto.Sync()}
+		for i := 0; i < 3; i++ {
+			segs = append(segs, d...)
+		}
+		segs = append(segs, pgproto.Bind("p", "s", nil, [][]byte{[]byte("a"), []byte("b")}, nil), pgproto.Describe('P', "p"), pgproto.Describe('S', "s"), pgproto.Describe('P', "p"), pgproto.Describe('S', "s"), pgproto.Sync())
+		out = append(out, c02Session{Name: fmt.Sprintf("statement and portal of %d columns described again and again", nc), Params: true, Segs: segs})
+	}
 	// (i) statements declaring very many parameters (counts around the int16 / uint16 boundaries of the count word)
 	for _, n := range []int{1, 255, 256, 32767, 32768, 40000, 65535} {
 		q := fmt.Sprintf("1:r,c=T $%d", n)
@@ -429,7 +448,7 @@ func init() {
 		ID:          "C02",
 		Level:       "model_checking",
 		Technique:   "explicit-state enumeration of frame-writer operation sequences x sink faults on the real buffer.Writer against a list-of-frames model; exhaustive enumeration of sessions over an 'odd vocabulary' of handler programs and client histories on a real server, every captured byte stream parsed by an independent strict backend grammar; write-fault enumeration (every k-th write fails)",
-		Rule:        "F1: all operation sequences of length <= d over 13 writer operations (within the Start..End bracket) x {healthy sink, k-th write fails (sticky / transient), short write}; F2: ErrorResponse shapes (C17 enumeration to depth 3); F3: ~3k sessions (result-writer programs x 0-3 columns with odd names x tags; 64 decorator subsets simple+extended; all extended histories of length <= 2 over the C06 alphabet; startup/global parameters with empty and non-ASCII values, auth none/good/bad; SSL refusal; COPY for 1-3 columns x 2 formats x 3 policies x short client sequences; oversized/unknown; every value 0..255 of the Describe / Close target byte and of the message type byte) and for every 3rd session every position of a failing write; F4: one-column rows over the whole C09 value alphabet (types x boundary values x source forms x NULL forms) x {text, binary}",
+		Rule:        "F1: all operation sequences of length <= d over 13 writer operations (within the Start..End bracket) x {healthy sink, k-th write fails (sticky / transient), short write}; F2: ErrorResponse shapes (C17 enumeration to depth 3); F3: ~3k sessions (result-writer programs x 0-3 columns with odd names x tags; 64 decorator subsets simple+extended; all extended histories of length <= 2 over the C06 alphabet; startup/global parameters with empty and non-ASCII values, auth none/good/bad; SSL refusal; COPY for 1-3 columns x 2 formats x 3 policies x short client sequences; oversized/unknown; rows with values of 4000..70000 bytes; repeated Describe of one statement / portal; every value 0..255 of the Describe / Close target byte and of the message type byte) and for every 3rd session every position of a failing write; F4: one-column rows over the whole C09 value alphabet (types x boundary values x source forms x NULL forms) x {text, binary}",
 		Assumptions: []string{"handler-supplied strings contain no NUL byte (a C-string field cannot carry one)", "buffer.Writer is used inside its documented Start..End bracket"},
 		Enumerate:   c02Enumerate,
 		Bounds: func(tier string) map[string]any {
